@@ -187,6 +187,18 @@ def populate_plan(rng, printed=None):
     return plan
 
 
+def other_filesystem_dir():
+    """a writable directory on a different file system than the scratch directories of this run, or None"""
+    here = os.stat(tempfile.gettempdir()).st_dev
+    for cand in ("/dev/shm", "/run", "/var/tmp", os.path.expanduser("~"), "/verif/.cache"):
+        try:
+            if os.path.isdir(cand) and os.access(cand, os.W_OK) and os.stat(cand).st_dev != here:
+                return cand
+        except OSError:
+            pass
+    return None
+
+
 def mk_case(flag, pos, dirmode, dirform="rel", fs="long", ds="long", order=("f", "p", "d"), env=None, kind="matrix", plan=None):
     return {"flag": flag, "pos": pos, "dirmode": dirmode, "dirform": dirform, "fs": fs, "ds": ds, "order": list(order),
             "env": env or {}, "kind": kind, "plan": plan}
@@ -201,7 +213,7 @@ def darg_of(case):
     if dm == "missing":
         return {"rel": "nowhere", "abs": "@BASE@/nowhere", "nested": "out/nowhere"}.get(form, "nowhere")
     return {"rel": "out", "dotrel": "./out", "slash": "out/", "nested": "sub/out", "abs": "@BASE@/elsewhere/comp", "dot": ".",
-            "dotdot": "../cwd/out"}[form]
+            "dotdot": "../cwd/out", "symlink": "linkdir", "symlink-abs": "@BASE@/cwd/linkdir"}[form]
 
 
 def drel_of(case):
@@ -212,7 +224,7 @@ def drel_of(case):
     if dm == "missing":
         return {"rel": "cwd/nowhere", "abs": "nowhere", "nested": "cwd/out/nowhere"}.get(form, "cwd/nowhere")
     return {"rel": "cwd/out", "dotrel": "cwd/out", "slash": "cwd/out", "nested": "cwd/sub/out", "abs": "elsewhere/comp", "dot": "cwd",
-            "dotdot": "cwd/out"}[form]
+            "dotdot": "cwd/out", "symlink": "elsewhere/real", "symlink-abs": "elsewhere/real"}[form]
 
 
 def argv_of(case, base):
@@ -243,8 +255,22 @@ def gen_cases(ctx, printed=None):
                 form = "abs" if dm == "populated" else "rel"
                 cases.append(mk_case(f, p, dm, form, plan=populate_plan(r, printed) if dm == "populated" else None))
     # 2. spelling variants of the accepted shapes (and of both/neither), seeded
-    forms = ["rel", "dotrel", "slash", "nested", "abs", "dot", "dotdot"]
+    forms = ["rel", "dotrel", "slash", "nested", "abs", "dot", "dotdot", "symlink", "symlink-abs"]
     envs = [{}, {}, {"NO_COLOR": "1"}, {"TERM": "dumb"}, {"TERM": "xterm-256color"}, {"TERM": "xterm-256color", "NO_COLOR": "1"}]
+    # a temporary directory on ANOTHER file system than the target (seeded change C19-8: the script staged in $TMPDIR and renamed
+    # into place): imdl does not use TMPDIR, so where it points cannot matter
+    other = other_filesystem_dir()
+    if other:
+        envs += [{"TMPDIR": other}, {"TMPDIR": other, "NO_COLOR": "1"}, {"TMPDIR": other}]
+    # every shell once into a symlinked directory, and once with the foreign TMPDIR, deterministically
+    for s_ in SHELLS:
+        cases.append(mk_case(s_, None, "empty", "symlink", kind="spelling", env={}))
+        cases.append(mk_case(None, s_, "populated", "symlink-abs", kind="spelling", env={}, plan=populate_plan(r, printed)))
+        if other:
+            cases.append(mk_case(s_, None, "empty", "rel", kind="spelling", env={"TMPDIR": other}))
+    cases.append(mk_case(None, None, "empty", "symlink", kind="spelling", env={}))
+    if other:
+        cases.append(mk_case(None, None, "empty", "rel", kind="spelling", env={"TMPDIR": other}))
     for _ in range(ctx.n(120, 2500)):
         shape = r.choice(["flag", "flag", "pos", "pos", "neither", "both"])
         f = r.choice(SHELLS) if shape in ("flag", "both") else None
@@ -309,6 +335,9 @@ def execute(ctx, root, case):
     drel = drel_of(case)
     if case["dirmode"] in ("empty", "populated"):
         os.makedirs(os.path.join(base, drel), exist_ok=True)
+        if case["dirform"] in ("symlink", "symlink-abs"):
+            # D is a symbolic link to an existing directory: still a directory to write into (seeded change C19-7)
+            os.symlink(os.path.join("..", "elsewhere", "real"), os.path.join(cwd, "linkdir"))
         for n, c in (case["plan"] or {}).items():
             if c is None:
                 os.makedirs(os.path.join(base, drel, n, "in the way"))
